@@ -144,7 +144,8 @@ class RebuildCheck:
             "C19": [
                 "hostile name / path elements: every sequence of length <= 2 "
                 "(+ final file name) over {d, '..', '.', '', absolute path "
-                "inside the sandbox, 'a/../../b', '../..'} and a 12-deep '..' "
+                "inside the sandbox, 'a/../../b', '../..', a sibling directory "
+                "whose name extends the destination's name} and a 12-deep '..' "
                 "chain; destination 20 levels below the sandbox root (cases with more than 20 '..' in total are skipped) so that "
                 "escapes stay observable inside the sandbox",
                 "raising, skipping or sanitising are all acceptable; only "
@@ -240,7 +241,7 @@ class RebuildCheck:
                     dirs, placed = scatter_files(files, sb, sc)
                     add_decoys(files, placed, dk, seed)
                     orders = listings or (["sorted", "reversed"]
-                                          if dk == "decoy" else ["sorted"])
+                                          if dk != "none" else ["sorted"])
                     for fam in fams or FAMILIES:
                         mp, meta = metas[fam]
                         if mp is None:
@@ -508,7 +509,7 @@ class RebuildCheck:
     @staticmethod
     def hostile_alphabet(abs_target):
         return ["d", "..", ".", "", abs_target, "a/../../b", "../..",
-                "/".join([".."] * 12)]
+                "/".join([".."] * 12), "<SIBLING>"]
 
     def run_hostile(self, g, res):
         seed, ver = g["seed"], g["version"]
@@ -545,14 +546,18 @@ class RebuildCheck:
                     n += 1
                     dest = os.path.join(deep, f"dest{n}")
                     os.mkdir(dest)
-                    tree = {(): data} if single else {tuple(seq) + (last,):
-                                                      data}
+                    # <SIBLING> = a directory next to the destination whose
+                    # name has the destination's name as a prefix
+                    sib = "../" + os.path.basename(dest) + "x"
+                    rseq = tuple(sib if e == "<SIBLING>" else e for e in seq)
+                    rname = sib if name == "<SIBLING>" else name
+                    tree = {(): data} if single else {rseq + (last,): data}
                     if ver == 1:
-                        m = model.ref_v1(name, tree, P)
+                        m = model.ref_v1(rname, tree, P)
                     elif ver == 2:
-                        m = model.ref_v2(name, tree, P, REAL_B)
+                        m = model.ref_v2(rname, tree, P, REAL_B)
                     else:
-                        m = model.ref_hybrid(name, tree, P, REAL_B)
+                        m = model.ref_hybrid(rname, tree, P, REAL_B)
                     mp = os.path.join(sb, "m.torrent")
                     with open(mp, "wb") as f:
                         f.write(bencode.encode(m))
